@@ -60,7 +60,15 @@ def m_doc_key_timeout(it, case):
     return it['detail'] == 'C16:key-not-honoured:scale_up_cool_down_timeout'
 
 
-MATCHERS = {'taint_value_wraps_in_time_unix': m_taint_wrap, 'doc_key_scale_up_cool_down_timeout': m_doc_key_timeout}
+def m_fatal_rebuild(it, case):
+    return it['detail'] == 'C20:fatal:rebuild-failed'
+
+
+def m_fatal_strikes(it, case):
+    return it['detail'] == 'C20:fatal:fleet-strikes'
+
+
+MATCHERS = {'fatal_rebuild_failed': m_fatal_rebuild, 'fatal_fleet_strikes': m_fatal_strikes, 'taint_value_wraps_in_time_unix': m_taint_wrap, 'doc_key_scale_up_cool_down_timeout': m_doc_key_timeout}
 
 
 def match(prop, it, root):
